@@ -18,6 +18,7 @@ func main() {
 	tdcx.Drive(w, o, "C07", func(s string) string { return "(KTdc " + s + ")" })
 	lazyx.Drive(w, o, func(s string) string { return "(KLazy " + s + ")" })
 	reusex.Drive(w, o, func(s string) string { return "(KReuse " + s + ")" })
+	reusex.DriveArm(w, o)
 	poolx.DriveBursts(w, o, func(s string) string { return "(KBurst " + s + ")" })
 	ppx.Drive(w, o, func(s string) string { return "(KPool " + s + ")" })
 	dialx.Drive(w, o, func(s string) string { return "(KLive " + s + ")" })
